@@ -126,6 +126,7 @@ func clauseInvolves(fc *FuncContract, prop string) bool {
 		return true
 	}
 	all := append(append([]*Clause{}, fc.Requires...), fc.Ensures...)
+	all = append(all, fc.Claims...)
 	for _, l := range fc.Loops {
 		all = append(all, l...)
 	}
